@@ -36,8 +36,9 @@ const (
 	oNotIdentical                      // C06: exact class, Pack(v) != canonical(p)
 	oNoTerminator                      // counted only: 28.001 accepted without NUL in the last octet
 	oEmbeddedNUL                       // counted only: 28.001 value contains NUL
+	oAliasPayload                      // C06: the decoded value changes when the payload buffer is overwritten afterwards
 
-	c06Bits = oPanicPack | oPanicReUnpack | oReRejected | oDrift | oNotIdentical
+	c06Bits = oPanicPack | oPanicReUnpack | oReRejected | oDrift | oNotIdentical | oAliasPayload
 	c08Bits = oPanicUnpack | oWrongLen | oOutOfRange | oPanicString | oPanicUnit
 )
 
@@ -69,6 +70,9 @@ type codec struct {
 	rv, rv2  reflect.Value // dereferenced values
 	equal    func() bool
 	canonBuf [32]byte
+	refKind  bool   // the Go type holds strings, slices, pointers or maps: a decoded value could share memory with the payload
+	scratch  []byte // a private copy of the payload for the overwrite-after-decode probe
+	p3       []byte
 	// details of the last eval
 	p2       []byte
 	err      error
@@ -90,7 +94,24 @@ func newCodec(name string) *codec {
 		c.family = name
 	}
 	c.equal = equalFunc(d, d2)
+	c.refKind = holdsRefs(c.rv.Type())
 	return c
+}
+
+func holdsRefs(t reflect.Type) bool {
+	switch t.Kind() {
+	case reflect.String, reflect.Slice, reflect.Ptr, reflect.Map, reflect.Interface, reflect.UnsafePointer:
+		return true
+	case reflect.Array:
+		return holdsRefs(t.Elem())
+	case reflect.Struct:
+		for i := 0; i < t.NumField(); i++ {
+			if holdsRefs(t.Field(i).Type) {
+				return true
+			}
+		}
+	}
+	return false
 }
 
 func ptrAs[T any](d dpt.Datapoint) *T {
@@ -226,6 +247,22 @@ func (c *codec) eval(p []byte, fl flags) (o outcome) {
 		if !c.equal() {
 			o |= oDrift
 		}
+		if c.refKind && o&oDrift == 0 {
+			// a receiver re-uses its buffer for the next telegram: decode from a private copy of the
+			// payload, overwrite the copy, encode - the value must be what it was
+			c.scratch = append(c.scratch[:0], p...)
+			stage = stUnpack
+			if err := c.d.Unpack(c.scratch); err == nil {
+				for i := range c.scratch {
+					c.scratch[i] ^= 0x5A
+				}
+				stage = stPack
+				c.p3 = c.d.Pack()
+				if !bytes.Equal(c.p3, p2) {
+					o |= oAliasPayload
+				}
+			}
+		}
 		// Byte identity is the additional demand on a stable round trip; a drifting case is
 		// reported as drift only (one class per defect).
 		if s := c.spec; o&oDrift == 0 && s != nil && s.exact && s.lengthOK(len(p)) {
@@ -248,6 +285,7 @@ func (c *codec) classes(o outcome) []string {
 	add(oDrift, "C06:drift:%s")
 	add(oReRejected, "C06:reencoded-rejected:%s")
 	add(oNotIdentical, "C06:not-byte-identical:%s")
+	add(oAliasPayload, "C06:decoded-value-aliases-payload:%s")
 	add(oPanicPack, "C06:panic:Pack:%s")
 	add(oPanicReUnpack, "C06:panic:Unpack-of-reencoded:%s")
 	add(oPanicUnpack, "C08:panic:%s")
@@ -323,6 +361,9 @@ func (c *codec) describe(p []byte, o outcome) string {
 			}
 			if o&oNotIdentical != 0 {
 				fmt.Fprintf(&b, "; class %s must re-encode to % x", c.spec.class, c.spec.canon(p, nil))
+			}
+			if o&oAliasPayload != 0 {
+				fmt.Fprintf(&b, "; decoded from a buffer that is overwritten afterwards (as a receiver re-using its buffer does) the same value encodes to % x: it shares memory with the payload", c.p3)
 			}
 		}
 	}
